@@ -498,7 +498,13 @@ pub(crate) fn on_retract_response(
         scheduler_state,
         ..
     } = core.split_mut();
-    worker_map.get_worker_mut(worker_id).retraction_answered();
+    let worker = worker_map.get_worker_mut(worker_id);
+    worker.retraction_answered();
+    if worker.is_free() {
+        // Nothing else tells the scheduler that this worker can be used again, e.g. for a
+        // multi-node task (the retracted tasks may all have been canceled meanwhile)
+        comm.ask_for_scheduling();
+    }
     let mut to_workers: Map<WorkerId, Vec<(TaskId, ResourceVariantId)>> = Map::new();
     for task_id in task_ids {
         // The task may have been canceled or failed while the retraction was in flight
